@@ -11,7 +11,7 @@ use crate::tape::Tape;
 use serde_json::{json, Value};
 
 /// names the macro refers to (or plausibly could): each defined as a local item of some kind
-const SHADOWS: [(&str, &str); 22] = [
+const SHADOWS: [(&str, &str); 26] = [
     ("Impl", "pub struct Impl;"),
     ("Sync", "pub struct Sync;"),
     ("Send", "pub struct Send;"),
@@ -34,6 +34,11 @@ const SHADOWS: [(&str, &str); 22] = [
     ("future", "pub mod future {}"),
     ("unimock", "pub mod unimock {}"),
     ("mockall", "pub mod mockall {}"),
+    // imports and blanket traits that add *methods* to every type: generated method-call syntax must not pick them up
+    ("use Borrow", "use ::core::borrow::Borrow as _;"),
+    ("Borrow", "use ::core::borrow::Borrow;"),
+    ("use BorrowMut/Deref", "use ::core::borrow::BorrowMut as _; use ::core::ops::Deref as _;"),
+    ("blanket trait with as_ref/borrow/into_inner", "pub trait Hijack { fn as_ref(&self) -> u8 { 0 } fn borrow(&self) -> u8 { 0 } fn into_inner(self) -> u8 where Self: ::core::marker::Sized { 0 } }\n    impl<X: ?::core::marker::Sized> Hijack for X {}"),
 ];
 
 const HOSTILE_TRAIT_NAMES: [&str; 6] = ["Send", "Sync", "Future", "Impl", "AsRef", "Sized"];
@@ -126,7 +131,7 @@ fn module(name: &str, shadows: &[&str], unit_src: &str, expr: &str, trait_name: 
     )
 }
 
-pub fn gen_case(t: &mut Tape, excl_marker_shadows: bool) -> Case {
+pub fn gen_case(t: &mut Tape, excl_marker_shadows: bool, excl_blanket_methods: bool) -> Case {
     let us = units();
     let (uname, usrc, uexpr) = us[t.choose(us.len())];
     let mut shadows: Vec<&str> = vec![];
@@ -138,6 +143,9 @@ pub fn gen_case(t: &mut Tape, excl_marker_shadows: bool) -> Case {
             continue;
         }
         if excl_marker_shadows && (nm == "Sync" || nm == "Send") {
+            continue;
+        }
+        if excl_blanket_methods && nm.starts_with("blanket trait") {
             continue;
         }
         if nm == "Box" && usrc.contains("async_trait") {
@@ -160,6 +168,8 @@ pub fn gen_case(t: &mut Tape, excl_marker_shadows: bool) -> Case {
     src.push_str("pub fn run() -> Vec<String> {\n    let mut fails = vec![];\n    crate::rt::expect_eq(&mut fails, \"value computed in the hostile scope vs the benign scope\", &hostile::go(), &benign::go());\n    fails\n}\n");
     let mut twin = String::from("#![allow(warnings)]\n");
     twin.push_str(&module("benign", &[], usrc, uexpr, "Foo"));
+    // the twin's extra module has the shadowing items but no entrait usage: if that does not compile the shadows clash among themselves
+    twin.push_str(&module("hostile_items_only", &shadows, "", "0", "Foo"));
     twin.push_str(&module("hostile", &[], usrc, uexpr, "Foo"));
     twin.push_str("pub fn run() -> Vec<String> { vec![] }\n");
     let mut classes = vec![format!("unit:{uname}")];
@@ -208,18 +218,19 @@ pub fn run(ctx: &mut Ctx) {
         .into();
     let open = crate::ev::open_findings("C19");
     let excl = open.iter().any(|f| f.key == "bare-sync-send-idents");
+    let excl_blanket = open.iter().any(|f| f.key == "blanket-trait-method-capture");
     for f in &open {
-        if f.key != "bare-sync-send-idents" {
-            crate::ev::inconclusive(&format!("known_findings.txt lists an open C19 finding with an unknown key: {}", f.key));
-        }
-        // probe
-        let probe = "#![allow(warnings)]\npub mod hostile {\n    pub struct App;\n    pub struct Sync;\n    #[::entrait::entrait(pub Foo)]\n    pub fn foo(_deps: &impl ::core::any::Any) -> u64 { 1 }\n}\npub fn run() -> Vec<String> { vec![] }\n";
+        let probe = match f.key.as_str() {
+            "bare-sync-send-idents" => "#![allow(warnings)]\npub mod hostile {\n    pub struct App;\n    pub struct Sync;\n    #[::entrait::entrait(pub Foo)]\n    pub fn foo(_deps: &impl ::core::any::Any) -> u64 { 1 }\n}\npub fn run() -> Vec<String> { vec![] }\n",
+            "blanket-trait-method-capture" => "#![allow(warnings)]\npub mod hostile {\n    pub struct App;\n    pub trait Hijack { fn as_ref(&self) -> u8 { 0 } }\n    impl<X: ?::core::marker::Sized> Hijack for X {}\n    #[::entrait::entrait]\n    pub trait Leaf { fn leaf(&self) -> u64; }\n    impl Leaf for App { fn leaf(&self) -> u64 { 1 } }\n    pub fn go() -> u64 { <::entrait::Impl<App> as Leaf>::leaf(&::entrait::Impl::new(App)) }\n}\npub fn run() -> Vec<String> { vec![] }\n",
+            other => crate::ev::inconclusive(&format!("known_findings.txt lists an open C19 finding with an unknown key: {other}")),
+        };
         ctx.count_eval();
         if run_single("c19-probe", probe).is_err() {
             ctx.known(&format!("key={} {}", f.key, f.what));
         }
     }
-    ctx.extra.insert("excluded_by_construction".into(), json!({"shadowing_Sync_or_Send": excl}));
+    ctx.extra.insert("excluded_by_construction".into(), json!({"shadowing_Sync_or_Send": excl, "blanket_trait_with_as_ref_borrow_into_inner_methods": excl_blanket}));
     // no_std crate
     {
         let mut b = Batch::new("c19-nostd", Opts { feature_unimock: false, members: 1, no_std: true, check_only: true, ..Default::default() });
@@ -238,7 +249,7 @@ pub fn run(ctx: &mut Ctx) {
     }
     let n = ctx.n(1000, 10000) as usize;
     let tapes = crate::drive::gen_tapes(ctx.seed, 1900, n, TAPE_LEN);
-    let cases: Vec<Case> = tapes.iter().map(|tp| gen_case(&mut Tape::new(tp), excl)).collect();
+    let cases: Vec<Case> = tapes.iter().map(|tp| gen_case(&mut Tape::new(tp), excl, excl_blanket)).collect();
     let mut batch = Batch::new("c19", Opts { feature_unimock: false, members: 16, ..Default::default() });
     for (i, c) in cases.iter().enumerate() {
         batch.add(&format!("c{i:05}"), c.src.clone());
